@@ -1,1 +1,286 @@
-//! reference model `route_tree` — not built yet.
+//! Reference for C09: an interpreter for an actix-web routing table.
+//!
+//! Written from the documentation of `App`, `Scope`, `Resource`, `Route` and the guards (see
+//! DESIGN.md Appendix A.1), on top of `seg_match` (pattern language) and `pct_decode` (the routing
+//! view of a request path).  Rules:
+//!
+//! * services of a level are tried in registration order;
+//! * a scope with prefix `p` is the *prefix* definition of `p` (a leading `/` is inserted when `p`
+//!   is non-empty and lacks one): it matches when the unmatched path starts with it and what
+//!   follows is empty or starts with `/`.  When prefix and scope guards accept, the scope
+//!   **commits**: its parameters are recorded, the prefix is consumed, its data container is
+//!   pushed, and the request is answered inside — by the first matching child or by the scope's
+//!   default.  Later siblings are never tried;
+//! * a resource is the *full* definition of its pattern(s) (leading `/` inserted into non-empty
+//!   patterns lacking one) against the whole unmatched rest.  When pattern and resource guards
+//!   accept it commits likewise; the first route whose guards accept answers, else the resource's
+//!   default (405 unless replaced);
+//! * `App::route(p, r)` / `Scope::route(p, r)` is a one-route resource whose route guards act as
+//!   resource guards;
+//! * nothing matched at a level: the level's default answers.  The app's is 404 unless replaced.
+//!   A scope without its own default uses the **app's** (documented on `Scope::default_service`);
+//!   the property text says "nearest enclosing default", so for a default-less scope inside a
+//!   scope with a custom default both are returned as acceptable;
+//! * parameters seen by whoever answers: those of every committed pattern, outer to inner, as
+//!   substrings of the routing view of the path; data: innermost registration per type.
+
+use serde::{Deserialize, Serialize};
+
+use super::{
+    pct_decode,
+    seg_match::{Def, Pattern},
+};
+
+#[derive(Clone, Debug, PartialEq, Eq, Serialize, Deserialize)]
+pub enum Guard {
+    Method(String),
+    /// header name (lower case) must be present with exactly this value
+    Header(String, String),
+    Host(String),
+}
+
+#[derive(Clone, Debug, PartialEq, Eq, Serialize, Deserialize)]
+pub struct Route {
+    pub id: u32,
+    pub guards: Vec<Guard>,
+}
+
+#[derive(Clone, Debug, PartialEq, Eq, Serialize, Deserialize)]
+pub enum Node {
+    Resource {
+        id: u32,
+        patterns: Vec<String>,
+        guards: Vec<Guard>,
+        routes: Vec<Route>,
+        /// id of a custom default service, if any
+        default: Option<u32>,
+        /// values registered as app_data, one slot per marker type
+        data: [Option<u32>; 2],
+    },
+    /// `.route(path, route)` sugar on App / Scope
+    Sugar { path: String, route: Route },
+    Scope {
+        id: u32,
+        prefix: String,
+        guards: Vec<Guard>,
+        children: Vec<Node>,
+        default: Option<u32>,
+        data: [Option<u32>; 2],
+    },
+}
+
+#[derive(Clone, Debug, PartialEq, Eq, Serialize, Deserialize)]
+pub struct Table {
+    pub children: Vec<Node>,
+    pub default: Option<u32>,
+    pub data: [Option<u32>; 2],
+}
+
+#[derive(Clone, Debug, PartialEq, Eq, Serialize, Deserialize)]
+pub struct Req {
+    pub method: String,
+    /// raw request path (still percent-encoded), starts with `/`
+    pub path: String,
+    /// optional query string without the `?`
+    pub query: Option<String>,
+    /// extra header (lower-case name, value)
+    pub header: Option<(String, String)>,
+    pub host: Option<String>,
+}
+
+#[derive(Clone, Debug, PartialEq, Eq)]
+pub enum Who {
+    /// the route handler with this id
+    Route(u32),
+    /// the custom default service with this id
+    Default(u32),
+    /// built-in 404
+    NotFound,
+    /// built-in 405 of a resource
+    MethodNotAllowed,
+}
+
+#[derive(Clone, Debug, PartialEq, Eq)]
+pub struct Expected {
+    /// acceptable answerers (more than one only where documentation and property text differ)
+    pub who: Vec<Who>,
+    pub params: Vec<(String, String)>,
+    pub data: [Option<u32>; 2],
+    /// abstract decision path for signatures: kinds of the nodes committed to and how it ended
+    pub trace: String,
+    /// some guard of a node whose pattern matched rejected the request
+    pub guard_rejected: bool,
+    /// the default-less-nested-scope latitude applies
+    pub latitude: bool,
+}
+
+pub fn guards_ok(gs: &[Guard], req: &Req) -> bool {
+    gs.iter().all(|g| match g {
+        Guard::Method(m) => *m == req.method,
+        Guard::Header(n, v) => req.header.as_ref().map(|(hn, hv)| hn == n && hv == v).unwrap_or(false),
+        Guard::Host(h) => req.host.as_deref() == Some(h.as_str()),
+    })
+}
+
+fn with_slash(p: &str) -> String {
+    if !p.is_empty() && !p.starts_with('/') {
+        format!("/{p}")
+    } else {
+        p.to_string()
+    }
+}
+
+pub fn scope_def(prefix: &str) -> Option<Def> {
+    Def::parse(&[with_slash(prefix)], true)
+}
+
+pub fn resource_def(patterns: &[String]) -> Option<Def> {
+    let v: Vec<String> = patterns.iter().map(|p| with_slash(p)).collect();
+    Def::parse(&v, false)
+}
+
+struct St<'a> {
+    view: &'a str,
+    req: &'a Req,
+    params: Vec<(String, String)>,
+    data: [Option<u32>; 2],
+    trace: String,
+    guard_rejected: bool,
+    /// custom defaults of the enclosing scopes, innermost last
+    scope_defaults: Vec<Option<u32>>,
+}
+
+impl St<'_> {
+    fn push_data(&mut self, d: &[Option<u32>; 2]) {
+        for i in 0..2 {
+            if d[i].is_some() {
+                self.data[i] = d[i];
+            }
+        }
+    }
+    fn take(&mut self, pos: usize, caps: &[(String, usize, usize)]) {
+        let rest = &self.view[pos..];
+        for (n, a, b) in caps {
+            self.params.push((n.clone(), rest[*a..*b].to_string()));
+        }
+    }
+}
+
+/// Interpret `table` for `req`.  `None` when a pattern of the table is outside the modelled
+/// grammar (the caller must not generate such tables).
+pub fn route(table: &Table, req: &Req) -> Option<Expected> {
+    let view = pct_decode::path_view(&req.path);
+    let mut st = St { view: &view, req, params: vec![], data: [None, None], trace: String::new(), guard_rejected: false, scope_defaults: vec![] };
+    st.push_data(&table.data);
+    let (who, latitude) = match level(&table.children, 0, &mut st)? {
+        Some(w) => w,
+        None => {
+            st.trace.push_str("!app-default");
+            (vec![table.default.map(Who::Default).unwrap_or(Who::NotFound)], false)
+        }
+    };
+    // scope-level fall-through asks for the app default through this marker
+    let who = who
+        .into_iter()
+        .map(|w| match w {
+            Who::Default(u32::MAX) => table.default.map(Who::Default).unwrap_or(Who::NotFound),
+            w => w,
+        })
+        .collect::<Vec<_>>();
+    let mut uniq: Vec<Who> = vec![];
+    for w in who {
+        if !uniq.contains(&w) {
+            uniq.push(w);
+        }
+    }
+    let latitude = latitude && uniq.len() > 1;
+    Some(Expected { who: uniq, params: st.params, data: st.data, trace: st.trace, guard_rejected: st.guard_rejected, latitude })
+}
+
+/// Try the services of one level in order.  `Some(None)`: nothing at this level took the request.
+fn level(children: &[Node], pos: usize, st: &mut St<'_>) -> Option<Option<(Vec<Who>, bool)>> {
+    for child in children {
+        match child {
+            Node::Resource { patterns, guards, routes, default, data, .. } => {
+                let def = resource_def(patterns)?;
+                if let Some((_, m)) = def.find(&st.view[pos..]) {
+                    if !guards_ok(guards, st.req) {
+                        st.guard_rejected = true;
+                        continue;
+                    }
+                    st.take(pos, &m.caps);
+                    st.push_data(data);
+                    st.trace.push('R');
+                    for r in routes {
+                        if guards_ok(&r.guards, st.req) {
+                            st.trace.push_str("!route");
+                            return Some(Some((vec![Who::Route(r.id)], false)));
+                        }
+                        st.guard_rejected = true;
+                    }
+                    st.trace.push_str("!resource-default");
+                    return Some(Some((vec![default.map(Who::Default).unwrap_or(Who::MethodNotAllowed)], false)));
+                }
+            }
+            Node::Sugar { path, route } => {
+                let def = resource_def(std::slice::from_ref(path))?;
+                if let Some((_, m)) = def.find(&st.view[pos..]) {
+                    if !guards_ok(&route.guards, st.req) {
+                        st.guard_rejected = true;
+                        continue;
+                    }
+                    st.take(pos, &m.caps);
+                    st.trace.push_str("S!route");
+                    return Some(Some((vec![Who::Route(route.id)], false)));
+                }
+            }
+            Node::Scope { prefix, guards, children, default, data, .. } => {
+                let def = scope_def(prefix)?;
+                if let Some((_, m)) = def.find(&st.view[pos..]) {
+                    if !guards_ok(guards, st.req) {
+                        st.guard_rejected = true;
+                        continue;
+                    }
+                    st.take(pos, &m.caps);
+                    st.push_data(data);
+                    st.trace.push_str("C(");
+                    st.scope_defaults.push(*default);
+                    let inner = level(children, pos + m.len, st)?;
+                    let own = st.scope_defaults.pop().unwrap();
+                    if let Some(w) = inner {
+                        return Some(Some(w));
+                    }
+                    st.trace.push_str("!scope-default");
+                    return Some(Some(match own {
+                        Some(d) => (vec![Who::Default(d)], false),
+                        None => {
+                            // documented: the app default.  Property text: nearest enclosing.
+                            let mut who = vec![Who::Default(u32::MAX)];
+                            if let Some(Some(d)) = st.scope_defaults.iter().rev().find(|d| d.is_some()) {
+                                who.push(Who::Default(*d));
+                            }
+                            (who, true)
+                        }
+                    }));
+                }
+            }
+        }
+    }
+    Some(None)
+}
+
+/// Is every pattern of the table inside the modelled grammar and free of constructions the
+/// documentation calls undefined (tail in a scope prefix)?
+pub fn well_formed(table: &Table) -> bool {
+    fn nodes(ns: &[Node]) -> bool {
+        ns.iter().all(|n| match n {
+            Node::Resource { patterns, .. } => !patterns.is_empty() && resource_def(patterns).is_some(),
+            Node::Sugar { path, .. } => Pattern::parse(&with_slash(path)).is_some(),
+            Node::Scope { prefix, children, .. } => match Pattern::parse(&with_slash(prefix)) {
+                Some(p) => !p.has_tail() && nodes(children),
+                None => false,
+            },
+        })
+    }
+    nodes(&table.children)
+}
